@@ -253,6 +253,8 @@ def truth(ctx, st, x):
             if r is not None:
                 return r
         return z3.BoolVal(True)
+    if type(x).__name__ == "SliceVal":
+        return smt.llen(x.base.t) > x.lo
     if isinstance(x, Opaque):
         raise OutOfSubset("truthiness of opaque value %r" % (x,))
     if isinstance(x, Seq):
